@@ -222,6 +222,24 @@ func (p C14) Run(c *sim.Ctx, t *sim.Tape) sim.RunResult {
 
 			c.Count("directories_with_restricted_mode", 1)
 		}
+
+		// and some files he can see but not read.
+		for j := t.Int(3); j > 0 && len(files) > 0; j-- {
+			f := files[t.Int(len(files))]
+			m := []uint32{0o000, 0o200, 0o600, 0o640, 0o444}[t.Int(5)]
+
+			if t.Chance(400) {
+				if _, stop := do(admin, fsx.Op{K: "Chown", P: f, Uid: user.uid, Gid: user.gid}); stop {
+					return res
+				}
+			}
+
+			if _, stop := do(admin, fsx.Op{K: "Chmod", P: f, Perm: m}); stop {
+				return res
+			}
+
+			c.Count("files_with_restricted_mode", 1)
+		}
 	}
 
 	existing := func() string {
